@@ -17,4 +17,4 @@ Extraction "model.ml"
   run_prog target_okb
   main_run merge_fields find_config
   smart_quotes ellipses
-  dedent prepare_body render_parsed transform_doc render_doc doc_cleanups coalesce_doc.
+  dedent prepare_body render_parsed transform_doc render_doc doc_cleanups coalesce_doc fill_markdown parser_input.
